@@ -108,7 +108,12 @@ func process(text string) (*yang.EnumType, bool, []error) {
 	if err := ms.Parse(text, "m.yang"); err != nil {
 		return nil, false, []error{err}
 	}
-	if errs := ms.Process(); len(errs) > 0 {
+	errs := ms.Process()
+	// a second run over the same set reports the same
+	if again := ms.Process(); len(again) != len(errs) {
+		return nil, false, append(errs, fmt.Errorf("SECOND-RUN-DIFFERS: the first Process reports %d errors, the second %d", len(errs), len(again)))
+	}
+	if len(errs) > 0 {
 		return nil, false, errs
 	}
 	e := yang.ToEntry(ms.Modules["m"])
@@ -187,6 +192,28 @@ func exec(kind byte, body []byte) *core.Verdict {
 	if got := pairs(e.NameMap()); api && got != pairs(want) {
 		return fail("api-values-differ", "specification %s, library %s", pairs(want), got)
 	}
+	if api {
+		// what the accessors hand out is the caller's to change: the type itself must not move
+		nm, vm := e.NameMap(), e.ValueMap()
+		nm["zz-sentinel"] = 12345
+		vm[12345] = "zz-sentinel"
+		for n := range want {
+			delete(nm, n)
+			break
+		}
+		for _, n := range e.Names() {
+			_ = n
+		}
+		if ns := e.Names(); len(ns) > 0 {
+			ns[0] = "zz-overwritten"
+		}
+		if vs := e.Values(); len(vs) > 0 {
+			vs[0] = 98765
+		}
+		if got := pairs(e.NameMap()); got != pairs(want) || e.IsDefined("zz-sentinel") || e.Name(12345) != "" {
+			return fail("accessor-result-aliases-the-type", "after changing the maps and slices returned by NameMap / ValueMap / Names / Values the type reads %s, specification %s", got, pairs(want))
+		}
+	}
 	if c.Uniq && api {
 		nm, vm := e.NameMap(), e.ValueMap()
 		if len(nm) != len(vm) {
@@ -216,6 +243,11 @@ func exec(kind byte, body []byte) *core.Verdict {
 	}
 	text := module(c.Ops, lits, c.Uniq)
 	et, ok, errs := process(text)
+	for _, e := range errs {
+		if strings.HasPrefix(e.Error(), "SECOND-RUN-DIFFERS") {
+			return fail("second-process-differs", "%v\n%s", e, text)
+		}
+	}
 	if ok != allOK {
 		return fail("process-accept-differs", "specification accepts=%v, Process errors=%v\n%s", allOK, errs, text)
 	}
